@@ -35,6 +35,27 @@ func c07Tree(r gen.R, shape string, big bool) Tree {
 			t = append(t, TNode{Path: "big/" + name, Size: r.Intn(3) * 10, Seed: uint64(i + 1)})
 		}
 		return t
+	case "inode-farm":
+		// inodes of many different sizes in one flat directory, so that every 8 KiB metadata-block boundary of
+		// the inode table falls inside some inode, at varying positions: symlinks with 40..250-byte targets,
+		// files with 1..12 data blocks (block lists of varying length), empty files, small directories
+		t := Tree{{Path: "farm", Dir: true}}
+		n := 450 + r.Intn(200)
+		for i := 0; i < n; i++ {
+			name := fmt.Sprintf("farm/%c%03d%s", 'a'+rune(r.Intn(26)), i, strings.Repeat("_", r.Intn(12)))
+			switch r.Intn(10) {
+			case 0, 1, 2, 3, 4, 5:
+				l := 40 + r.Intn(211)
+				t = append(t, TNode{Path: name, Link: strings.Repeat("t", l-len(name)%7-3) + fmt.Sprintf("%03d", i)})
+			case 6:
+				t = append(t, TNode{Path: name, Dir: true})
+			case 7:
+				t = append(t, TNode{Path: name, Size: 0})
+			default:
+				t = append(t, TNode{Path: name, Size: (1+r.Intn(12))*4096 - r.Intn(2)*100, Seed: uint64(i + 1)})
+			}
+		}
+		return t
 	case "sizes":
 		var t Tree
 		for i, sz := range []int{0, 1, 4095, 4096, 4097, 8192, 8192 + 100, 131072, 131073, 3*131072 + 5, 1<<20 + 17, 200} {
@@ -209,18 +230,18 @@ func c07Run(c core.Case, env *core.Env) core.Result {
 }
 
 func init() {
-	shapes := []string{"mixed", "many-entries", "sizes", "small-files", "symlinks", "long-names"}
+	shapes := []string{"mixed", "many-entries", "sizes", "small-files", "symlinks", "long-names", "inode-farm"}
 	core.Register(&core.Check{
 		ID:    "C07",
 		Level: "exploration",
-		Rule: "generated workspace trees (mixed; a directory with 300-1200 entries so listings span metadata blocks; sizes 0,1,block-1,block,block+1,...; 150 small files sharing fragment blocks; zero runs, compressible and incompressible data; symlinks incl. dangling and 600-byte targets; names up to 255 bytes) finalized under every configuration of a matrix {none, gzip, xz, lz4, zstd} x {fragments, NoFragments} x block size {4 KiB, 128 KiB, 1 MiB} x NoCompress*/NoPad flags at start 0 or 1 MiB; each image is re-opened and walked with cache sizes {default, 0, 1 block, 3 blocks}: directories, byte-identical contents and link targets must equal the source and the canonical form must be identical across all configurations (differential); an independent superblock reader checks bytes_used against the highest byte Finalize wrote (write log of the store), table pointers, inode count, block size/log, fragment count; a Finalize refusal for a tree of directories, files and symlinks is a violation; non-trivial = image finalized and walked; distinct = distinct (configuration, start, tree)",
+		Rule: "generated workspace trees (mixed; a directory with 300-1200 entries so listings span metadata blocks; sizes 0,1,block-1,block,block+1,...; 150 small files sharing fragment blocks; zero runs, compressible and incompressible data; symlinks incl. dangling and 600-byte targets; names up to 255 bytes; a flat directory of 450-650 inodes of varying sizes - symlinks with 40..250-byte targets, files with 1..12-entry block lists, empty files, directories - so that every 8 KiB metadata-block boundary of the inode table falls inside some inode at a varying position) finalized under every configuration of a matrix {none, gzip, xz, lz4, zstd} x {fragments, NoFragments} x block size {4 KiB, 128 KiB, 1 MiB} x NoCompress*/NoPad flags at start 0 or 1 MiB; each image is re-opened and walked with cache sizes {default, 0, 1 block, 3 blocks}: directories, byte-identical contents and link targets must equal the source and the canonical form must be identical across all configurations (differential); an independent superblock reader checks bytes_used against the highest byte Finalize wrote (write log of the store), table pointers, inode count, block size/log, fragment count; a Finalize refusal for a tree of directories, files and symlinks is a violation; non-trivial = image finalized and walked; distinct = distinct (configuration, start, tree)",
 		Assumptions: []string{"the worker's cwd is deliberately not the workspace", "bytes_used may be followed by padding up to the next 4 KiB boundary unless NoPad"},
 		MinSigs:   map[string]int{"quick": 40, "thorough": 1500},
-		NeedMarks: []string{"comp none", "comp gzip", "comp xz", "comp lz4", "comp zstd", "no fragments", "cache 0-blocks", "cache 1-blocks", "image at non-zero start", "shape many-entries", "shape symlinks"},
+		NeedMarks: []string{"comp none", "comp gzip", "comp xz", "comp lz4", "comp zstd", "no fragments", "cache 0-blocks", "cache 1-blocks", "image at non-zero start", "shape many-entries", "shape symlinks", "shape inode-farm"},
 		CPUSec:    900,
 		Cases: func(seed int64, tier string) []core.Case {
 			r := gen.New(seed ^ 0xC07)
-			n := 12
+			n := 14
 			if tier == "thorough" {
 				n = 200
 			}
